@@ -15,3 +15,4 @@ import PptxModel.GenProps.C10
 import PptxModel.Props.C11
 import PptxModel.GenProps.C11
 import PptxModel.Props.C01
+import PptxModel.Props.C16
